@@ -107,4 +107,13 @@ theorem isDateTime_names (lines : List HLine)
   simp only [isDateTime, beq_iff_eq, Value.text.injEq, Bool.or_eq_true, Bool.and_eq_true, decide_eq_true_eq] at this ⊢
   exact this
 
+theorem identClash_text (lines : List HLine) :
+    identClash (lines.map (fun h => ((.text h.mnem : Value), (.text h.unit : Value)))) = false := by
+  unfold identClash
+  rw [List.any_eq_false]
+  intro p hp
+  have hm := (List.mem_zipIdx hp).2.2
+  simp only [List.getElem_map] at hm
+  rw [hm]; simp [asNum]
+
 end TD.C09
